@@ -8,7 +8,10 @@ structural(ctx): `vharness aux c13sites` re-derives from /repo's current source,
   event paths of the model (Model/ConcCache.v).
 stage_race(ctx): a -race build of the harness runs the multi-goroutine driver (aux c13stress) as a
   child process with a timeout; any race report, fatal error, crash, hang, cross-talk or change of the
-  shared document is a failing schedule whose log is the replay."""
+  shared document is a failing schedule whose log is the replay. Separate documents differ in the length of
+  the arrays that open-ended ranges `(k:end)` are taken of (run alone = the closed spelling `(k:len)`), and
+  SPINASYNC calls over flat / 2- / 3-dimensional tables are tallied: a call still running when Exec returns
+  (C13-UNFINISHED) is the library's own parallelism racing with the caller."""
 import json, os, re, subprocess, time
 
 
@@ -127,6 +130,8 @@ def stage_race(ctx):
             kinds.append("timeout / deadlock")
         if "C13-CROSSTALK" in out:
             kinds.append("cross-talk: a query returned something else than when run alone")
+        if "C13-UNFINISHED" in out:
+            kinds.append("library goroutines outlive Exec: SPINASYNC calls still running when Exec returned")
         if "C13-SHARED-MODIFIED" in out:
             kinds.append("the shared document was modified")
         if re.search(r"^panic: ", out, re.M) or "[recovered]" in out:
